@@ -6,8 +6,9 @@ package pool
 
 // sync.Pool is outside the verifier's reach (interface{} round trip, runtime internals). The
 // assumed contract states what its callers rely on: a non-nil metric that nothing else the
-// caller holds refers to.
+// caller holds refers to, whose tag buffer (if any) is likewise unshared.
 //@ func (*MetricPool).Get
 //@   trusted
 //@   requires mp != nil
 //@   ensures  result != nil && fresh(result)
+//@   ensures  base(result.Tags) == 0 || fresh(base(result.Tags))
